@@ -137,6 +137,15 @@ def run(ctx):
                   "%s gates the possible values on ValueRange::%s instead of takes_values(): args with an optional value lose their value list" % (q, preds))
     if len(sigs) == 2:
         res.check(len(set(map(tuple, sigs.values()))) == 1, "R16.2", "possible_values-siblings-agree", "clap_complete", "AOT and dynamic helpers use the same gate", "AOT and dynamic possible_values helpers disagree: %s" % sigs)
+    # R16.3b bash: the word of a case arm is what the user types (name / visible alias verbatim); only the function name is mangled
+    for b in fx.bodies(r"^clap_complete::aot::shells::bash::all_subcommands::add_command$"):
+        pu = [c for c in b.calls_to(r"Vec::push$") if expr(b, c.args[0]) == "subcmds"]
+        res.floor("R16.3", "case-table rows pushed by bash add_command", len(pu), 2)
+        for c in pu:
+            e = expr(b, c.args[1])
+            m = re.match(r"^tuple\(to_string\(parent_fn_name\),(to_string\((get_name\(cmd\)|next\(into_iter\(get_visible_aliases\(cmd\)\)\)#Some\.0)\)),", e)
+            res.check(m is not None, "R16.3", "bash-case-word-verbatim|" + ("alias" if "aliases" in e[:120] else "name"), c.where(), "case word = %s" % (m.group(1) if m else "?"),
+                      "bash case-table row is built from %s: the word compared with what the user typed is not the subcommand name / alias verbatim, so that spelling never selects its level" % e[:110])
     # R16.2e filters on item iterations in the generators consult only reviewed predicates (anything else can drop an item)
     import rules.c12 as c12
     SRC = c12.ITEM_SRC + r"|Command::(get_visible_aliases|get_all_aliases|get_visible_short_flag_aliases|get_visible_long_flag_aliases)$|Arg::(get_visible_aliases|get_visible_short_aliases|get_all_aliases)$|utils::(all_subcommands|subcommands|shorts_and_visible_aliases|longs_and_visible_aliases|flags|possible_values)$"
